@@ -78,7 +78,7 @@ CG_RATIO = 1e-12
 def bounds(tier):
     return {"ift_dims": _ift_dims(tier), "ift_points": 81, "ift_minor_axes": len(_minor_axes(tier)), "slots": ["guess", 0, 1, 2, 4],
             "entries": ["nonlinear_solve", "nonlinear_solve_with_state"], "chain_depth": 3, "chain_actions": 3,
-            "helper_orders": [1, 2], "helper_materials": ["neohookean", "j2-small"] + ([] if tier == "quick" else ["j2-large"]),
+            "helper_orders": [1, 2], "helper_materials": ["neohookean", "j2-small", "j2-large (quick: state-update products on order 1 only)"],
             "fs_perturbations": ["+1e-3", "-1e-3", "+0.1", "-0.1"], "fs_modes": ["cartesian", "axisymmetric"]}
 
 
@@ -92,10 +92,15 @@ def _ift_shards(tier, n):
 
 def groups(tier, seed):
     gs = []
-    mats = ["j2-small", "neohookean"] if tier == "quick" else ["j2-large", "j2-small", "neohookean"]
-    for mat in mats:
-        for order in (2, 1):
-            gs.append({"name": "helpers-%s-p%d" % (mat, order), "kind": "helpers", "mat": mat, "order": order})
+    # finite-deformation J2 compiles for ~2 min per group: the residual products (part R) only in the thorough tier, the
+    # state-update products (part U, where the full displacement gradient matters) for order 1 already in the quick tier
+    if tier == "quick":
+        hg = [("j2-large", 1, "U"), ("j2-small", 2, "RU"), ("j2-small", 1, "RU"), ("neohookean", 2, "RU"), ("neohookean", 1, "RU")]
+    else:
+        hg = [("j2-large", 2, "R"), ("j2-large", 2, "U"), ("j2-large", 1, "R"), ("j2-large", 1, "U"),
+              ("j2-small", 2, "RU"), ("j2-small", 1, "RU"), ("neohookean", 2, "RU"), ("neohookean", 1, "RU")]
+    for mat, order, parts in hg:
+        gs.append({"name": "helpers-%s-p%d-%s" % (mat, order, parts), "kind": "helpers", "mat": mat, "order": order, "parts": parts})
     for n in sorted(_ift_dims(tier), reverse=True):
         ns = _ift_shards(tier, n)
         for s in range(ns):
@@ -735,6 +740,7 @@ def _run_helpers(g, tier, seed, rec):
             X = Xs[xl]
             Xj = jnp.array(X)
             hs = (["R-coords"] + (["R-ivs"] if isJ2 else [])) + ["U-coords"] + (["U-ivs", "U-disp"] if xl == "mesh" else [])
+            hs = [h for h in hs if h[0] in g.get("parts", "RU")]
             for h in hs:
                 base_cid = "helper;mat=%s;p=%d;U=%s;state=%s;X=%s;h=%s" % (matn, order, ul, sl, xl, h)
                 ncot = nu if h.startswith("R-") else ne * nq * ns
